@@ -6,12 +6,12 @@ import (
 	"pgregory.net/rapid"
 )
 
-var knobsStable = Knobs{MinInst: 2, MaxInst: 5, LatFrac: 0.2499, WatchDelayH: 6, Stops: true, StopPhases: true, Promote: true, LongH: true, NewObjects: true, HealthyChecks: true, MinHorizonH: 20, MaxHorizonH: 40}
+var knobsStable = Knobs{MinInst: 2, MaxInst: 5, LatFrac: 0.2499, WatchDelayH: 6, Stops: true, StopPhases: true, Promote: true, LongH: true, NewObjects: true, HealthyChecks: true, TakeoverTies: true, MinHorizonH: 20, MaxHorizonH: 40}
 
 func TestC07(t *testing.T) {
 	RunCheck(t, CheckSpec{
 		Prop: "C07",
-		Rule: "fault-free plans built to create overlap: 2-5 instances, latencies < H/4 per direction (one list in eight: every operation at the limit), heartbeat intervals up to 3s, health checkers that always answer healthy (at once or only when their 100ms context expires), watch deliveries delayed by up to 6H (FIFO kept), graceful DeleteKey shutdowns / stops / restarts of leaders and followers at generated times and at phases of in-flight operations, dice extremes, runs of 20-40 H; oracle: each term is undisturbed (no claim-down edge, no OnDemote, same token at every snapshot, every heartbeat succeeds, record never lapses or changes owner) until the first stop call on that election. Non-trivial = a term during which the same instance made another acquisition attempt, a watch event older than the term reached the leader, a periodic Get straddled the promotion, or another instance started/stopped; distinct by plan hash.",
+		Rule: "fault-free plans built to create overlap: 2-5 instances, latencies < H/4 per direction (one list in eight: every operation at the limit), heartbeat intervals up to 3s, in half of the plans one common priority with priority takeover enabled for most instances (nobody outranks anybody: no preemption), health checkers that always answer healthy (at once or only when their 100ms context expires), watch deliveries delayed by up to 6H (FIFO kept), graceful DeleteKey shutdowns / stops / restarts of leaders and followers at generated times and at phases of in-flight operations, dice extremes, runs of 20-40 H; oracle: each term is undisturbed (no claim-down edge, no OnDemote, same token at every snapshot, every heartbeat succeeds, record never lapses or changes owner) until the first stop call on that election. Non-trivial = a term during which the same instance made another acquisition attempt, a watch event older than the term reached the leader, a periodic Get straddled the promotion, or another instance started/stopped; distinct by plan hash.",
 		Gen: MixShapes(func(t *rapid.T) *Plan { return GenPlan(t, "stable", knobsStable) },
 			func(t *rapid.T) *Plan { return GenRestartInFlightPlan(t, "stable") }),
 		Oracle: OracleC07,
